@@ -428,6 +428,86 @@ def inline_returned_temporaries(modules):
     return count
 
 
+def _first_evaluated(test):
+    """the sub-expression a test evaluates first (through not / and / or / the left operand of a comparison)"""
+    t = test
+    while True:
+        if isinstance(t, ast.UnaryOp) and isinstance(t.op, ast.Not):
+            t = t.operand
+        elif isinstance(t, ast.BoolOp):
+            t = t.values[0]
+        elif isinstance(t, ast.Compare):
+            t = t.left
+        else:
+            return t
+
+
+def hoist_walrus(modules):
+    """`if (x := E) ...:` - the assignment expression being the first thing the test evaluates - is analysed as `x = E` followed by
+    `if x ...:` (an `elif` becomes `else:` + the two statements).  Returns the number of hoisted assignment expressions."""
+    count = 0
+    for mod in modules.values():
+        changed = True
+        while changed:
+            changed = False
+            for parent in ast.walk(mod.tree):
+                for field in ('body', 'orelse', 'finalbody'):
+                    lst = getattr(parent, field, None)
+                    if not isinstance(lst, list):
+                        continue
+                    for i, st in enumerate(lst):
+                        if not isinstance(st, ast.If):
+                            continue
+                        w = _first_evaluated(st.test)
+                        if not (isinstance(w, ast.NamedExpr) and isinstance(w.target, ast.Name)):
+                            continue
+                        pos = {k: getattr(st, k) for k in ('lineno', 'col_offset') if hasattr(st, k)}
+                        pos.update(end_lineno=getattr(w, 'end_lineno', pos['lineno']), end_col_offset=getattr(w, 'end_col_offset', pos['col_offset']))
+                        name, val = w.target.id, w.value
+                        keep = {k: getattr(w, k) for k in ('lineno', 'col_offset', 'end_lineno', 'end_col_offset') if hasattr(w, k)}
+                        w.__class__ = ast.Name
+                        w.__dict__.clear()
+                        w.__dict__.update(dict(id=name, ctx=ast.Load(), **keep))
+                        # the If keeps its line; the new assignment sits just in front of it (fractional line number, like inlined helpers)
+                        asg = ast.Assign(targets=[ast.Name(id=name, ctx=ast.Store(), **keep)], value=val, **pos)
+                        asg.orig_lineno = pos['lineno']
+                        asg.lineno = pos['lineno'] - 0.5
+                        asg.targets[0].lineno = asg.lineno
+                        lst.insert(i, asg)
+                        count += 1
+                        changed = True
+                        break
+    return count
+
+
+def expand_conditional_statements(modules):
+    """`x = a if c else b` (one side-effect-free name or attribute target) and `return a if c else b` are analysed as the if statement with the two
+    assignments / returns.  Returns the number of expanded statements."""
+    count = 0
+    for mod in modules.values():
+        for parent in ast.walk(mod.tree):
+            for field in ('body', 'orelse', 'finalbody'):
+                lst = getattr(parent, field, None)
+                if not isinstance(lst, list) or isinstance(parent, (ast.ClassDef, ast.Module)):
+                    continue
+                for i, st in enumerate(lst):
+                    if not (isinstance(st, (ast.Assign, ast.Return)) and isinstance(st.value, ast.IfExp)):
+                        continue
+                    if isinstance(st, ast.Assign) and not (len(st.targets) == 1 and isinstance(st.targets[0], (ast.Name, ast.Attribute)) and dotted(st.targets[0])):
+                        continue
+                    ife = st.value
+                    pos = {k: getattr(st, k) for k in ('lineno', 'col_offset', 'end_lineno', 'end_col_offset') if hasattr(st, k)}
+
+                    def arm(v):
+                        p2 = {k: getattr(v, k, pos.get(k)) for k in ('lineno', 'col_offset', 'end_lineno', 'end_col_offset')}
+                        if isinstance(st, ast.Return):
+                            return ast.Return(value=v, **p2)
+                        return ast.Assign(targets=[copy.deepcopy(st.targets[0])], value=v, **p2)
+                    lst[i] = ast.If(test=ife.test, body=[arm(ife.body)], orelse=[arm(ife.orelse)], **pos)
+                    count += 1
+    return count
+
+
 class Module:
     def __init__(self, name, path, relpath, src):
         self.name = name
@@ -635,6 +715,8 @@ class Program:
         self.comparisons_normalised = normalise_comparisons(self.modules)
         self.containers_normalised = normalise_empty_containers(self.modules)
         self.returns_inlined = inline_returned_temporaries(self.modules)
+        self.walrus_hoisted = hoist_walrus(self.modules)
+        self.conditionals_expanded = expand_conditional_statements(self.modules)
         self.else_hoisted = hoist_else_after_leave(self.modules)
         self.absorbed = absorb_private_helpers(self.modules)
         self.aliases_resolved = resolve_self_aliases(self.modules)
